@@ -416,6 +416,7 @@ func runCheck(id, tier string, seed uint64, workers, runs, ms int, replay, work 
 	// determinism probe: the first runs of worker 0 are executed twice more in
 	// fresh processes under other GOMAXPROCS values; event-log hashes must agree.
 	detRuns := 40
+	nondetMsg := ""
 	var detHashes [][]string
 	{
 		var wg sync.WaitGroup
@@ -450,14 +451,20 @@ func runCheck(id, tier string, seed uint64, workers, runs, ms int, replay, work 
 		detHashes = res
 		for k := 1; k < 3; k++ {
 			if strings.Join(res[k], ",") != strings.Join(res[0], ",") {
-				fmt.Fprintf(os.Stderr, "check: NONDETERMINISM: event-log hashes of %d runs differ between processes (GOMAXPROCS 1 vs %d); refusing to decide\n", detRuns, []int{1, 4, 16}[k])
+				nondetMsg = fmt.Sprintf("NONDETERMINISM: event-log hashes of %d runs differ between processes (GOMAXPROCS 1 vs %d)", detRuns, []int{1, 4, 16}[k])
 				for i := range res[0] {
 					if i < len(res[k]) && res[0][i] != res[k][i] {
-						fmt.Fprintf(os.Stderr, "  first difference at run %d: %s vs %s\n", i, res[0][i], res[k][i])
+						nondetMsg += fmt.Sprintf("; first difference at run %d: %s vs %s", i, res[0][i], res[k][i])
 						break
 					}
 				}
-				return 2
+				// The tree under test contains a source of nondeterminism the simulator does not control (known one:
+				// two timers due in the same virtual instant feeding one select - the Go runtime randomises their
+				// order inside a bubble). Every run is still a real execution judged by a sound oracle, so the
+				// exploration goes on; but only violations whose minimised tape replayed identically twice are
+				// reported, and without such a violation the check refuses to certify anything (exit 2).
+				fmt.Fprintf(os.Stderr, "check: %s; continuing, only replay-stable violations will be reported\n", nondetMsg)
+				break
 			}
 		}
 	}
@@ -651,7 +658,7 @@ func runCheck(id, tier string, seed uint64, workers, runs, ms int, replay, work 
 			"worker_seeds":                          fmt.Sprintf("run i of worker w uses splitmix(mix(%d, hash(%q), w, i))", seed, id),
 			"real_components":                       real,
 			"stub_components":                       stubs,
-			"determinism_probe":                     fmt.Sprintf("%d runs x 3 fresh processes (GOMAXPROCS 1/4/16): identical event-log hashes", len(detHashes[0])),
+			"determinism_probe":                     detText(nondetMsg, len(detHashes[0])),
 			"tree_fingerprint":                      tree,
 			"build_s":                               buildS,
 			"known_finding_lines":                   knownLines,
@@ -670,6 +677,19 @@ func runCheck(id, tier string, seed uint64, workers, runs, ms int, replay, work 
 	}
 	fmt.Printf("check %s tier=%s seed=%d: %d runs (%d non-trivial, %d distinct), %d steps, %.0f simulated s, %.1fs wall (%.1fs build), %d workers\n",
 		id, tier, seed, tot.Evaluations, tot.Nontrivial, len(distinct), tot.Steps, tot.VirtS, wall, buildS, workers)
+	if nondetMsg != "" {
+		var stable []*sigAgg
+		for _, a := range unknown {
+			if a.v.Stable {
+				stable = append(stable, a)
+			}
+		}
+		if len(stable) == 0 {
+			fmt.Fprintf(os.Stderr, "check: %s; no replay-stable violation found: refusing to decide\n", nondetMsg)
+			return 2
+		}
+		unknown = stable
+	}
 	if len(unknown) > 0 {
 		for _, a := range unknown {
 			fmt.Printf("  violation class=%s key=%s runs=%d stable_replay=%v\n    %s\n", a.v.Class, a.v.Key, a.count, a.v.Stable, a.v.Msg)
@@ -687,6 +707,13 @@ func runCheck(id, tier string, seed uint64, workers, runs, ms int, replay, work 
 // crashVerdict: a Go runtime fatal error in a worker (e.g. concurrent map
 // writes) is a violation for C17, harness trouble otherwise.
 var effectiveTier = "quick"
+
+func detText(nondet string, n int) string {
+	if nondet != "" {
+		return "FAILED: " + nondet
+	}
+	return fmt.Sprintf("%d runs x 3 fresh processes (GOMAXPROCS 1/4/16): identical event-log hashes", n)
+}
 
 func crashVerdict(id, logs, work string) (int, bool) {
 	if code, handled := libraryPanicVerdict(id, logs, work); handled {
